@@ -316,6 +316,64 @@ fn run_c12(w: &mut W) {
             }
         }
     }
+    // lane partners: two special bytes at a distance of 8/16/32/64/96 (the same lane of another
+    // word / vector of an unrolled step); folds with min/max/or across vectors can let one hide the other
+    if w.tier >= Tier::Small {
+        let special: Vec<u8> = vec![0x00, 0x09, 0x0A, 0x0D, 0x1F, 0x20, 0x21, 0x2C, 0x3A, 0x7E, 0x7F, 0x80, 0xA0, 0xFF, b'a', b'-'];
+        let dists: &[usize] = &[8, 16, 32, 64, 96];
+        let lens: &[usize] = if w.tier >= Tier::Quick { &[136, 200] } else { &[136] };
+        let mut lidx: u64 = 0;
+        for &sc in ALL_SC.iter() {
+            if matches!(sc, Sc::DispUri(0) | Sc::DispValue(0)) {
+                continue;
+            }
+            let c = sc.class();
+            for &l in lens {
+                for style in 1..3usize {
+                    let base: Vec<u8> = (0..l)
+                        .map(|i| match (style, c) {
+                            (1, _) => b'a' + (i % 26) as u8,
+                            (_, Class::Name) => [b'-', b'Z', b'x'][i % 3],
+                            (_, _) => [0xFFu8, b'~', 0xA0][i % 3],
+                        })
+                        .collect();
+                    for &d in dists {
+                        let qstep = if w.tier == Tier::Thorough { 1 } else { 3 };
+                        let mut q = 0;
+                        while q + d < l {
+                            lidx += 1;
+                            if lidx % n == shard {
+                                let mut b = base.clone();
+                                for &b1 in &special {
+                                    for &b2 in &special {
+                                        b[q] = b1;
+                                        b[q + d] = b2;
+                                        hv::reset();
+                                        if let Some(got) = scan::run(sc, &b) {
+                                            w.st.evaluations += 1;
+                                            let want = scan::expected(c, &b);
+                                            if got != want {
+                                                w.st.violation(Violation {
+                                                    property: "C12".into(),
+                                                    rule: "scanner_stop_offset_wrong".into(),
+                                                    detail: format!("scanner={} (lane-partner sweep, distance {}) stopped at {} want {} input={}", sc.name(), d, got, want, esc(&b)),
+                                                    replay: vec!["scan".into(), sc.idx().to_string(), "1000".into(), hex(&b)],
+                                                    signature: None,
+                                                });
+                                            }
+                                        }
+                                    }
+                                }
+                                w.st.count("lane_partner_sweeps_256", 1);
+                                w.st.distinct_case(mix(hash_bytes(sc.idx() as u64 + 1700 + d as u64, &base), q as u64));
+                            }
+                            q += qstep;
+                        }
+                    }
+                }
+            }
+        }
+    }
     // adjacent byte PAIRS: all 65536 (b1, b2) at neighbouring positions inside otherwise in-class
     // buffers with three filler styles (carry / borrow / fold slips need a value relation between
     // two bytes, e.g. 0xFF 0x1F or '-' ',')
